@@ -336,6 +336,10 @@ class VGhostLog(V):
 
 def parse_shape(s, models=None):
     """parse a type string such as 'Optional[Tuple[int, Optional[int]]]'."""
+    if isinstance(s, ObjModel):
+        return ("obj", s)
+    if isinstance(s, dict):
+        return ("dictrec", {k: parse_shape(v, models) for k, v in s.items()})
     if not isinstance(s, str):
         return s
     s = s.strip()
